@@ -129,6 +129,13 @@ WideRows == UNION {{WideRow(nt, sz, b) : nt \in {"0uS", "0dS", "0bS", "0xS"}, b 
 WideWidthLaw == \A w \in WideRows : (w.den.ok /\ w.nt # "0xS") => Len(w.padded) = w.size
 ASSUME WideWidthLaw
 
+\* ---- strings that are not literals -----------------------------------------------------------
+\* Spellings of other languages that no notation of the library claims: every entry point that reads a
+\* number (the importer, and the assembler's Process_number, which must agree with it on every literal)
+\* refuses them.
+NotLiterals == {"0o17", "1_000", "0B101", "0b", "0x", "1e3", "--1", "0u<8>", "0b<4>2"}
+ASSUME ndJsonSerialize(IOEnv.NOTLITS, SetToSeq({[text |-> t] : t \in NotLiterals}))
+
 \* ---- the linear quantiser ---------------------------------------------------------------------
 \* 0lq<s.t>x with range t = [-Max, Max) cut into 2^s bands: x denotes the number of its band as an
 \* s-bit two's complement pattern (band k covers k * Max / 2^(s-1)).  Rows [size, band, bits]; the
